@@ -160,11 +160,13 @@ func runLongLived(c llCase, rec *stat.Rec) *stat.Failure {
 		}
 	case "huge":
 		// one call on a fresh object with a source larger than any frame block: literal runs of more than 2^23 bytes
-		// (their length takes > 32896 bytes to write), as the final sequence and in front of a match
+		// (their length takes > 32896 bytes to write), as the final sequence and in front of a match; matches of more than 2^23 bytes
 		for _, n := range c.Stops {
 			for shape, d := range []gen.Data{
 				{Segs: []gen.Seg{{K: "rand", N: int(n), S: uint64(n)}}},
 				{Segs: []gen.Seg{{K: "rand", N: int(n), S: uint64(n) + 1}, {K: "copy", N: 300, P: 5000, S: 1}, {K: "rand", N: 40, S: 3}}},
+				{Segs: []gen.Seg{{K: "rand", N: 100, S: uint64(n) + 2}, {K: "run", N: int(n), P: 0}, {K: "rand", N: 30, S: 4}}}, // one match longer than 2^23
+				{Segs: []gen.Seg{{K: "period", N: int(n) + 3, S: uint64(n) + 3, P: 7}, {K: "rand", N: 30, S: 5}}},
 			} {
 				src := d.Build()
 				var fresh, again blockComps
